@@ -638,6 +638,37 @@ fn signature_position_programs() -> Vec<(String, String, String)> {
     out
 }
 
+/// a generic type whose field applies another generic type to its own parameter, instantiated at
+/// an argument that is itself an instance of a generic type (and at a second one): (name, text, output)
+fn nested_instance_programs() -> Vec<(String, String, String)> {
+    let head = "struct Box[T] { v: T }\nenum Option[T] { None, Some(T) }\n";
+    // (name, declarations, statements for Box[int32] printing 1, statements for Box[string] printing s)
+    let table: [(&str, &str, &str, &str); 7] = [
+        ("struct-field", "struct Slot[T] { item: Option[T] }\n",
+         "let a: Slot[Box[int32]] = Slot { item: Option::Some(Box { v: 1 }) };\n    let x = match a.item { Option::Some(b) => b.v, Option::None => 0 };\n    string_println(int32_to_string(x));",
+         "let c: Slot[Box[string]] = Slot { item: Option::Some(Box { v: \"s\" }) };\n    let y = match c.item { Option::Some(b) => b.v, Option::None => \"none\" };\n    string_println(y);"),
+        ("recursive-struct", "struct Node[T] { val: T, next: Option[Node[T]] }\n",
+         "let n0: Node[Box[int32]] = Node { val: Box { v: 1 }, next: Option::None };\n    let n1: Node[Box[int32]] = Node { val: Box { v: 5 }, next: Option::Some(n0) };\n    let x = match n1.next { Option::Some(m) => m.val.v, Option::None => 0 };\n    string_println(int32_to_string(x));",
+         "let m0: Node[Box[string]] = Node { val: Box { v: \"s\" }, next: Option::None };\n    string_println(m0.val.v);"),
+        ("enum-payload", "enum Holder[T] { Held(Option[T]), Empty }\n",
+         "let a: Holder[Box[int32]] = Holder::Held(Option::Some(Box { v: 1 }));\n    let x = match a { Holder::Held(Option::Some(b)) => b.v, _ => 0 };\n    string_println(int32_to_string(x));",
+         "let c: Holder[Box[string]] = Holder::Held(Option::Some(Box { v: \"s\" }));\n    let y = match c { Holder::Held(Option::Some(b)) => b.v, _ => \"none\" };\n    string_println(y);"),
+        ("two-levels", "struct Slot[T] { item: Option[T] }\nstruct Outer[T] { inner: Slot[T], n: int32 }\n",
+         "let a: Outer[Box[int32]] = Outer { inner: Slot { item: Option::Some(Box { v: 1 }) }, n: 2 };\n    let s = a.inner;\n    let x = match s.item { Option::Some(b) => b.v, Option::None => 0 };\n    string_println(int32_to_string(x));",
+         "let c: Outer[Box[string]] = Outer { inner: Slot { item: Option::Some(Box { v: \"s\" }) }, n: 2 };\n    let t = c.inner;\n    let y = match t.item { Option::Some(b) => b.v, Option::None => \"none\" };\n    string_println(y);"),
+        ("tuple-field", "struct Pairs[T] { p: (Option[T], int32) }\n",
+         "let a: Pairs[Box[int32]] = Pairs { p: (Option::Some(Box { v: 1 }), 9) };\n    let q: (Option[Box[int32]], int32) = a.p;\n    let x = match q.0 { Option::Some(b) => b.v, Option::None => 0 };\n    string_println(int32_to_string(x));",
+         "let c: Pairs[Box[string]] = Pairs { p: (Option::Some(Box { v: \"s\" }), 9) };\n    let r: (Option[Box[string]], int32) = c.p;\n    let y = match r.0 { Option::Some(b) => b.v, Option::None => \"none\" };\n    string_println(y);"),
+        ("vector-field", "struct Many[T] { xs: Vec[Option[T]] }\n",
+         "let a: Many[Box[int32]] = Many { xs: vec_push(vec_new(), Option::Some(Box { v: 1 })) };\n    let e: Option[Box[int32]] = vec_get(a.xs, 0);\n    let x = match e { Option::Some(b) => b.v, Option::None => 0 };\n    string_println(int32_to_string(x));",
+         "let c: Many[Box[string]] = Many { xs: vec_push(vec_new(), Option::Some(Box { v: \"s\" })) };\n    let f: Option[Box[string]] = vec_get(c.xs, 0);\n    let y = match f { Option::Some(b) => b.v, Option::None => \"none\" };\n    string_println(y);"),
+        ("argument-nested-twice", "struct Slot[T] { item: Option[T] }\n",
+         "let a: Slot[Box[Box[int32]]] = Slot { item: Option::Some(Box { v: Box { v: 1 } }) };\n    let x = match a.item { Option::Some(b) => b.v.v, Option::None => 0 };\n    string_println(int32_to_string(x));",
+         "let c: Slot[Option[Box[string]]] = Slot { item: Option::Some(Option::Some(Box { v: \"s\" })) };\n    let y = match c.item { Option::Some(Option::Some(b)) => b.v, _ => \"none\" };\n    string_println(y);"),
+    ];
+    table.iter().map(|(name, decls, first, second)| (name.to_string(), format!("{}{}fn main() {{\n    {}\n    {}\n}}\n", head, decls, first, second), "1\ns\n".to_string())).collect()
+}
+
 pub struct Generics;
 
 impl Family for Generics {
@@ -648,7 +679,7 @@ impl Family for Generics {
         &["C07", "C01", "C02", "C03", "C04"]
     }
     fn rule(&self) -> &'static str {
-        "32 generic templates (a two-parameter generic struct whose fields are read inside generic code at an instance with the function's parameters in the other order / shifted; a generic function calling itself with its type parameters swapped; a type parameter of a function / of a method / of an impl block that the signature never mentions (rejected, or valid); a method with a type parameter of its own inside a generic impl, at two instantiations for one receiver type; 8 where the type parameter occurs in the signature only underneath Vec / Ref / array / tuple / Opt / a generic struct / Vec[Ref[.]] / Ref[Vec[.]], each instantiated at two types; a type parameter occurring only in the result type at two instantiations agreeing on the argument-bound parameter, zero-argument generic fixed by the expected type, the same generic at (A,B) and (B,A), Vec/Ref/array element generics, id, pair, apply, Opt unwrap, generic struct with inherent method, trait dispatch through a bound at two impl types, generic calling generic at (T,T), recursive List[T], two bounds, two instances in one program, generic fn as a value, nested instantiation) x 13 type arguments {int32,bool,string,unit,(int32,bool),[int32;2],Vec[int32],Ref[int32],(int32)->int32,S,E2,Opt[int32],Opt[Opt[bool]]} (all ordered pairs for two-parameter templates in thorough, a diagonal band in quick); oracle: output = type-passing reference semantics, emitted Go valid (no type-parameter residue can survive the Go checker); plus 9 polymorphic-recursion programs (a generic function reaching itself at a doubled tuple / Vec / Opt / pair-with-int type, through a second function, through a method, and by two or three recursive calls at different larger types, so that the instances multiply long before any type is large) which must terminate, accepted or rejected, and 2 finite chains of 12 and 40 generic functions each calling the next at a larger type, which must compile and print their length; 4 generic types that mention themselves at a larger instance (enum, struct, through a second type; declared and never used: must be accepted) which must terminate and, if accepted, be valid Go printing the value, 2 regular recursive types (List[T]; one with its parameters permuted) which must be accepted, and 3 associated functions of a generic impl (the impl's parameter unmentioned: rejected or valid Go; in the argument; in the result only: accepted); and 10 generic functions whose type parameter occurs at exactly one place of the signature (a parameter; the result of a function-typed parameter, without and with an argument; the result of its result; function results inside a vector or a tuple; a tuple or vector result of a function-typed parameter; function results in parameters and in the result; through a second generic function), each called at int32, bool and string in one program and dispatching through the bound. non-trivial = instantiations at non-scalar types; distinct = distinct source text"
+        "32 generic templates (a two-parameter generic struct whose fields are read inside generic code at an instance with the function's parameters in the other order / shifted; a generic function calling itself with its type parameters swapped; a type parameter of a function / of a method / of an impl block that the signature never mentions (rejected, or valid); a method with a type parameter of its own inside a generic impl, at two instantiations for one receiver type; 8 where the type parameter occurs in the signature only underneath Vec / Ref / array / tuple / Opt / a generic struct / Vec[Ref[.]] / Ref[Vec[.]], each instantiated at two types; a type parameter occurring only in the result type at two instantiations agreeing on the argument-bound parameter, zero-argument generic fixed by the expected type, the same generic at (A,B) and (B,A), Vec/Ref/array element generics, id, pair, apply, Opt unwrap, generic struct with inherent method, trait dispatch through a bound at two impl types, generic calling generic at (T,T), recursive List[T], two bounds, two instances in one program, generic fn as a value, nested instantiation) x 13 type arguments {int32,bool,string,unit,(int32,bool),[int32;2],Vec[int32],Ref[int32],(int32)->int32,S,E2,Opt[int32],Opt[Opt[bool]]} (all ordered pairs for two-parameter templates in thorough, a diagonal band in quick); oracle: output = type-passing reference semantics, emitted Go valid (no type-parameter residue can survive the Go checker); plus 9 polymorphic-recursion programs (a generic function reaching itself at a doubled tuple / Vec / Opt / pair-with-int type, through a second function, through a method, and by two or three recursive calls at different larger types, so that the instances multiply long before any type is large) which must terminate, accepted or rejected, and 2 finite chains of 12 and 40 generic functions each calling the next at a larger type, which must compile and print their length; 4 generic types that mention themselves at a larger instance (enum, struct, through a second type; declared and never used: must be accepted) which must terminate and, if accepted, be valid Go printing the value, 2 regular recursive types (List[T]; one with its parameters permuted) which must be accepted, and 3 associated functions of a generic impl (the impl's parameter unmentioned: rejected or valid Go; in the argument; in the result only: accepted); and 10 generic functions whose type parameter occurs at exactly one place of the signature (a parameter; the result of a function-typed parameter, without and with an argument; the result of its result; function results inside a vector or a tuple; a tuple or vector result of a function-typed parameter; function results in parameters and in the result; through a second generic function), each called at int32, bool and string in one program and dispatching through the bound; and 7 generic types whose field applies another generic type to their own parameter (struct field, recursive struct, enum payload, two levels, tuple field, vector field, an argument nested twice), instantiated at Box[int32] and Box[string]. non-trivial = instantiations at non-scalar types; distinct = distinct source text"
     }
     fn cases(&self, tier: Tier) -> Box<dyn Iterator<Item = Value> + '_> {
         let mut v = Vec::new();
@@ -678,6 +709,9 @@ impl Family for Generics {
         for (name, _, _) in signature_position_programs() {
             v.push(json!({"template": "signature-positions", "a": name, "b": "int32"}));
         }
+        for (name, _, _) in nested_instance_programs() {
+            v.push(json!({"template": "nested-instances", "a": name, "b": "int32"}));
+        }
         Box::new(v.into_iter())
     }
     fn case_timeout(&self, _tier: Tier) -> u64 {
@@ -690,6 +724,14 @@ impl Family for Generics {
     fn run(&self, case: &Value, ctx: &mut Ctx) -> Report {
         let mut rep = Report::default();
         let (t, a, b) = (case["template"].as_str().unwrap(), case["a"].as_str().unwrap(), case["b"].as_str().unwrap());
+        if t == "nested-instances" {
+            let (name, text, expected) = nested_instance_programs().into_iter().find(|(n, _, _)| n == a).unwrap();
+            let site = format!("template=nested-instances;holder={}", name);
+            rep.nontrivial_key = Some(text.clone());
+            rep.outcome = Some(site.clone());
+            expect_text_program(ctx, &mut rep, "generics", case, &site, &text, &expected, &["C07", "C01"], &["C07", "C02"], &["C07"]);
+            return rep;
+        }
         if t == "signature-positions" {
             let (name, text, expected) = signature_position_programs().into_iter().find(|(n, _, _)| n == a).unwrap();
             let site = format!("template=signature-positions;where={}", name);
